@@ -1,63 +1,92 @@
 (* C13 property theorems.  Nothing but statements closed by `exact`, each followed by
    Print Assumptions.  `gen_*` are the functions regenerated from the source on this run (Gen.v).
-   Series s are arbitrary: any start (before, inside, after the training series), any length. *)
+   A series s is ANY list of (time point, value) observations: any start (before, inside, after the
+   training series), any length, contiguous or gapped index.  time_at s i / val_at s i are the time
+   point and the value of observation i. *)
 From Coq Require Import ZArith QArith List Bool.
 Require Import SkV.C13.Model SkV.C13.Gen SkV.C13.Proofs SkV.C13.Bridge.
 Import ListNotations.
 Open Scope Z_scope.
 
-(* _align_seasonal (np.roll by the regenerated shift, np.resize to the length of the passed series):
-   position i of the array holds the component seasonal[(t_i - t0) mod sp] of ITS time point,
-   wherever the passed stretch starts, after ANY sequence of update() calls *)
+(* _align_seasonal (regenerated): position i of the array holds the component
+   seasonal[(t_i - t0) mod sp] of the time point t_i of observation i, t0 = first TRAINING time
+   point - wherever the passed stretch starts, whether or not its index has gaps, after ANY
+   sequence of update() calls *)
 Theorem C13_seasonal_phase_only_mod_sp : forall decompose sp m y zs s i,
   let d := fold_left gen_des_update zs (des_fit decompose sp m y) in
-  wf (des_fit decompose sp m y) -> (i < length (svals s))%nat ->
-  nth i (gen_align_seasonal (d_seasonal d) (sstart s) (d_t0 d) (d_sp d) (slen s)) 0%Q =
-  zn (decompose m sp (svals y)) ((sstart s + Z.of_nat i - sstart y) mod sp).
+  (i < length s)%nat ->
+  nth i (gen_align_seasonal (d_seasonal d) (sindex s) (d_t0 d) (d_sp d)) 0%Q =
+  zn (decompose m sp (svals y)) ((time_at s i - sstart y) mod sp).
 Proof. exact code_seasonal_phase_only_mod_sp. Qed.
 Print Assumptions C13_seasonal_phase_only_mod_sp.
+
+(* ... and that position exists: with sp > 0 and len(seasonal_) = sp the looked-up entry is an
+   element of the fitted seasonal vector *)
+Theorem C13_phase_lookup_in_range : forall decompose sp m y zs s i,
+  let d := fold_left gen_des_update zs (des_fit decompose sp m y) in
+  wf (des_fit decompose sp m y) -> (i < length s)%nat ->
+  0 <= (time_at s i - sstart y) mod sp < Z.of_nat (length (decompose m sp (svals y))) /\
+  In (nth i (gen_align_seasonal (d_seasonal d) (sindex s) (d_t0 d) (d_sp d)) 0%Q)
+     (decompose m sp (svals y)).
+Proof. exact code_phase_in_range. Qed.
+Print Assumptions C13_phase_lookup_in_range.
 
 (* ... hence two time points congruent modulo sp get the same component, whatever stretches they
    belong to and whatever update histories precede the two calls *)
 Theorem C13_same_phase_same_component : forall decompose sp m y zs zs' s s' i i',
   let d := fold_left gen_des_update zs (des_fit decompose sp m y) in
   let d' := fold_left gen_des_update zs' (des_fit decompose sp m y) in
-  wf (des_fit decompose sp m y) ->
-  (i < length (svals s))%nat -> (i' < length (svals s'))%nat ->
-  (sstart s + Z.of_nat i) mod sp = (sstart s' + Z.of_nat i') mod sp ->
-  nth i (gen_align_seasonal (d_seasonal d) (sstart s) (d_t0 d) (d_sp d) (slen s)) 0%Q =
-  nth i' (gen_align_seasonal (d_seasonal d') (sstart s') (d_t0 d') (d_sp d') (slen s')) 0%Q.
+  (i < length s)%nat -> (i' < length s')%nat ->
+  time_at s i mod sp = time_at s' i' mod sp ->
+  nth i (gen_align_seasonal (d_seasonal d) (sindex s) (d_t0 d) (d_sp d)) 0%Q =
+  nth i' (gen_align_seasonal (d_seasonal d') (sindex s') (d_t0 d') (d_sp d')) 0%Q.
 Proof. exact code_same_phase_same_component. Qed.
 Print Assumptions C13_same_phase_same_component.
 
-(* the pre-fix update (re-basing the phase reference on the update batch) violates it *)
-Theorem C13_rebased_update_refuted :
+(* HISTORICAL witnesses (both defects are repaired in the code; these show that the OLD expressions
+   violate the statement above): update() re-basing the phase reference on the update batch ... *)
+Theorem C13_historical_rebased_update_refuted :
   exists decompose sp m y zs s i,
-    wf (des_fit decompose sp m y) /\ (i < length (svals s))%nat /\
+    wf (des_fit decompose sp m y) /\ (i < length s)%nat /\
     ~ nth i (align_seasonal (des_after des_update_rebased (des_fit decompose sp m y) zs) s) 0%Q
-      == zn (decompose m sp (svals y)) ((sstart s + Z.of_nat i - sstart y) mod sp).
+      == zn (decompose m sp (svals y)) ((time_at s i - sstart y) mod sp).
 Proof. exact rebased_update_refuted. Qed.
-Print Assumptions C13_rebased_update_refuted.
+Print Assumptions C13_historical_rebased_update_refuted.
 
-(* what Deseasonalizer.transform removes from observation i: the component of its time point *)
-Theorem C13_deseasonalizer_removes_component_of_time_point : forall d s i,
-  wf d -> (i < length (svals s))%nat ->
-  nth i (svals (gen_des_transform d s)) 0%Q =
-  gen_des_op (d_model d) (nth i (svals s) 0%Q)
-             (zn (d_seasonal d) ((sstart s + Z.of_nat i - d_t0 d) mod d_sp d)).
+(* ... and rolling the seasonal vector to the phase of the FIRST time point and tiling it: the same
+   array on every contiguous stretch, wrong after the first gap of a gapped one *)
+Theorem C13_historical_roll_and_tile :
+  (forall d start vals i, wf d -> (i < length vals)%nat ->
+     nth i (align_roll_tile d (contiguous start vals)) 0%Q =
+     nth i (align_seasonal d (contiguous start vals)) 0%Q) /\
+  (exists d s i, wf d /\ (i < length s)%nat /\
+     ~ nth i (align_roll_tile d s) 0%Q
+       == comp_at (d_seasonal d) (d_t0 d) (d_sp d) (time_at s i)).
+Proof. exact (conj roll_tile_contiguous roll_tile_gapped_refuted). Qed.
+Print Assumptions C13_historical_roll_and_tile.
+
+(* what Deseasonalizer.transform removes from / inverse_transform restores to observation i: the
+   component of ITS time point *)
+Theorem C13_deseasonalizer_uses_component_of_time_point : forall d s i,
+  (i < length s)%nat ->
+  val_at (gen_des_transform d s) i =
+  gen_des_op (d_model d) (val_at s i) (zn (d_seasonal d) ((time_at s i - d_t0 d) mod d_sp d)) /\
+  val_at (gen_des_inverse d s) i =
+  gen_des_inv_op (d_model d) (val_at s i) (zn (d_seasonal d) ((time_at s i - d_t0 d) mod d_sp d)).
 Proof. exact code_des_transform_nth. Qed.
-Print Assumptions C13_deseasonalizer_removes_component_of_time_point.
+Print Assumptions C13_deseasonalizer_uses_component_of_time_point.
 
 (* fit keeps the FIRST period of the decomposition's seasonal series S (periodic with period sp, as
    long as the training series): on the training series itself transform removes exactly S *)
-Theorem C13_training_series_component : forall (S : list Q) sp m y i,
+Theorem C13_training_series_component : forall (S : list Q) sp m t0 vals i,
   0 < sp -> (Z.to_nat sp <= length S)%nat ->
   (forall j, (j < length S)%nat -> nth j S 0%Q = nth (j mod Z.to_nat sp)%nat S 0%Q) ->
-  length S = length (svals y) -> (i < length (svals y))%nat ->
+  length S = length vals -> (i < length vals)%nat ->
+  let y := contiguous t0 vals in
   let d := {| d_sp := sp; d_model := m; d_t0 := sstart y;
               d_seasonal := firstn (Z.to_nat sp) S |} in
   wf d /\
-  nth i (svals (des_transform d y)) 0%Q = op_fwd m (nth i (svals y) 0%Q) (nth i S 0%Q).
+  val_at (des_transform d y) i = op_fwd m (nth i vals 0%Q) (nth i S 0%Q).
 Proof. exact training_component. Qed.
 Print Assumptions C13_training_series_component.
 
@@ -67,18 +96,36 @@ Theorem C13_deseasonalizer_inverse_id : forall decompose sp m y zs s,
   let d := fold_left gen_des_update zs (des_fit decompose sp m y) in
   wf (des_fit decompose sp m y) ->
   (m = Additive \/ Forall (fun c => ~ c == 0)%Q (decompose m sp (svals y))) ->
-  seq_eq (gen_des_inverse d (gen_des_transform d s)) s /\
-  sindex (gen_des_transform d s) = sindex s /\ sindex (gen_des_inverse d s) = sindex s.
+  seq_eq (gen_des_inverse d (gen_des_transform d s)) s.
 Proof. exact code_des_roundtrip. Qed.
 Print Assumptions C13_deseasonalizer_inverse_id.
 
-(* ... and position by position wherever the divisor is non-zero (both directions) *)
+(* ... in particular for the training series itself and for a stretch starting at any offset from
+   the training start (before / overlapping / later) *)
+Theorem C13_inverse_id_training_later_overlapping : forall decompose sp m y zs off vals,
+  let d := fold_left gen_des_update zs (des_fit decompose sp m y) in
+  let s := contiguous (sstart y + off) vals in
+  wf (des_fit decompose sp m y) ->
+  (m = Additive \/ Forall (fun c => ~ c == 0)%Q (decompose m sp (svals y))) ->
+  seq_eq (gen_des_inverse d (gen_des_transform d y)) y /\
+  seq_eq (gen_des_inverse d (gen_des_transform d s)) s.
+Proof. exact code_des_roundtrip_training_and_stretches. Qed.
+Print Assumptions C13_inverse_id_training_later_overlapping.
+
+(* tagged "transform-returns-same-time-index": exactly the input's index, unconditionally *)
+Theorem C13_deseasonalizer_index_preserved : forall d s,
+  sindex (gen_des_transform d s) = sindex s /\ sindex (gen_des_inverse d s) = sindex s.
+Proof. exact code_des_index_preserved. Qed.
+Print Assumptions C13_deseasonalizer_index_preserved.
+
+(* ... and position by position wherever the divisor is non-zero, i.e. wherever transform(z) is
+   finite (both directions) *)
 Theorem C13_deseasonalizer_inverse_id_where_finite : forall d s i,
-  wf d -> (i < length (svals s))%nat ->
+  (i < length s)%nat ->
   (d_model d = Additive \/
-   ~ zn (d_seasonal d) ((sstart s + Z.of_nat i - d_t0 d) mod d_sp d) == 0)%Q ->
-  (nth i (svals (gen_des_inverse d (gen_des_transform d s))) 0 == nth i (svals s) 0)%Q /\
-  (nth i (svals (gen_des_transform d (gen_des_inverse d s))) 0 == nth i (svals s) 0)%Q.
+   ~ zn (d_seasonal d) ((time_at s i - d_t0 d) mod d_sp d) == 0)%Q ->
+  (val_at (gen_des_inverse d (gen_des_transform d s)) i == val_at s i)%Q /\
+  (val_at (gen_des_transform d (gen_des_inverse d s)) i == val_at s i)%Q.
 Proof. exact code_des_roundtrip_at. Qed.
 Print Assumptions C13_deseasonalizer_inverse_id_where_finite.
 
@@ -97,12 +144,13 @@ Proof. exact cond_seasonal. Qed.
 Print Assumptions C13_conditional_seasonal.
 
 (* Detrender: for ANY trend forecast function (= forecaster state after any fit/update history)
-   the trend removed from observation i is the forecast for the time point of observation i of the
-   PASSED series, and inverse o transform = transform o inverse = identity on the same index *)
+   the trend removed from / added to observation i is the forecast for the TIME POINT of
+   observation i of the PASSED series, and inverse o transform = transform o inverse = identity on
+   the same index *)
 Theorem C13_detrender_uses_time_points_of_passed_data : forall trend s i,
-  (i < length (svals s))%nat ->
-  nth i (svals (gen_det_transform trend s)) 0%Q =
-  (nth i (svals s) 0 - trend (sstart s + Z.of_nat i)%Z)%Q.
+  (i < length s)%nat ->
+  val_at (gen_det_transform trend s) i = (val_at s i - trend (time_at s i))%Q /\
+  val_at (gen_det_inverse trend s) i = (val_at s i + trend (time_at s i))%Q.
 Proof. exact code_det_transform_nth. Qed.
 Print Assumptions C13_detrender_uses_time_points_of_passed_data.
 
@@ -163,8 +211,8 @@ Proof. exact gen_fit_transform_eq. Qed.
 Print Assumptions C13_fit_transform_is_fit_then_transform.
 
 (* shifting every time index (training series, update batches, transformed stretch) by k shifts the
-   output index by k and leaves the values unchanged *)
-Theorem C13_shift_equivariance_deseasonalizer : forall decompose sp m y zs s k,
+   output index by k and leaves the values unchanged (y <> []: fit rejects an empty series) *)
+Theorem C13_shift_equivariance_deseasonalizer : forall decompose sp m y zs s k, y <> [] ->
   let d := fold_left gen_des_update zs (des_fit decompose sp m y) in
   let d' := fold_left gen_des_update (map (shift_series k) zs)
                       (des_fit decompose sp m (shift_series k y)) in
@@ -172,6 +220,20 @@ Theorem C13_shift_equivariance_deseasonalizer : forall decompose sp m y zs s k,
   gen_des_inverse d' (shift_series k s) = shift_series k (gen_des_inverse d s).
 Proof. exact code_des_shift_equivariant. Qed.
 Print Assumptions C13_shift_equivariance_deseasonalizer.
+
+(* the conditional variant's fitted state shifts the same way, so the theorem above applies to it *)
+Theorem C13_shift_equivariance_conditional : forall test decompose sp m y s k, y <> [] ->
+  cond_fit test decompose sp m (shift_series k y) = shift_state k (cond_fit test decompose sp m y) /\
+  des_transform (shift_state k (cond_fit test decompose sp m y)) (shift_series k s) =
+    shift_series k (des_transform (cond_fit test decompose sp m y) s) /\
+  des_inverse (shift_state k (cond_fit test decompose sp m y)) (shift_series k s) =
+    shift_series k (des_inverse (cond_fit test decompose sp m y) s).
+Proof.
+  exact (fun test decompose sp m y s k H =>
+           conj (cond_fit_shift test decompose sp m y k H)
+                (des_shift_state (cond_fit test decompose sp m y) s k)).
+Qed.
+Print Assumptions C13_shift_equivariance_conditional.
 
 (* Detrender, given a shift-invariant trend oracle; the polynomial trend is one *)
 Theorem C13_shift_equivariance_detrender : forall trend trend' s k,
@@ -187,8 +249,8 @@ Proof. exact poly_trend_shift. Qed.
 Print Assumptions C13_polynomial_trend_is_shift_invariant.
 
 (* pointwise maps, OptionalPassthrough, and every transformer that reads its observations by
-   POSITION (values-only function g: HampelFilter, Imputer keep the index; ACF/PACF return a
-   lag-indexed series, so only the values are invariant) *)
+   POSITION (values-only function g: HampelFilter, Imputer, CosineTransformer keep the index;
+   ACF/PACF return a lag-indexed series, so only the values are invariant) *)
 Theorem C13_shift_equivariance_positional : forall (f : Q -> Q) (g : list Q -> list Q) b
     (h h' : series -> series) s k,
   pw_apply f (shift_series k s) = shift_series k (pw_apply f s) /\
@@ -205,19 +267,19 @@ Proof.
 Qed.
 Print Assumptions C13_shift_equivariance_positional.
 
-(* selecting window observations by label (the pre-fix HampelFilter) is not shift-invariant,
-   selecting them by position is *)
-Theorem C13_label_access_refuted :
+(* HISTORICAL: selecting window observations by label (the pre-fix HampelFilter) is not
+   shift-invariant, selecting them by position is *)
+Theorem C13_historical_label_access_refuted :
   (exists s w k, take_label (shift_series k s) w <> take_label s w) /\
   (forall s w k, take_pos (shift_series k s) w = take_pos s w).
 Proof. exact (conj take_label_refuted take_pos_shift). Qed.
-Print Assumptions C13_label_access_refuted.
+Print Assumptions C13_historical_label_access_refuted.
 
 (* hypotheses are satisfiable by a non-trivial instance: sp = 3, training starts at 5, one update
-   batch starting at 12, stretch starting at 9 *)
+   batch starting at 12, a GAPPED stretch with time points 9, 10, 13, 17 *)
 Example C13_nonvacuous :
-  wf (des_fit ex_dec 3 Additive ex_y) /\
-  des_transform (des_after des_update (des_fit ex_dec 3 Additive ex_y) [(12, [9; 9]%Q)])
-                (9, [10; 10; 10; 10]%Q)
-  = (9, [10 - 0; 10 - 1; 10 - -1; 10 - 0]%Q).
+  wf (des_fit ex_dec 3 Additive ex_y) /\ ex_y <> [] /\
+  des_transform (des_after des_update (des_fit ex_dec 3 Additive ex_y) [contiguous 12 [9; 9]%Q])
+                (combine [9; 10; 13; 17] [10; 10; 10; 10]%Q)
+  = combine [9; 10; 13; 17] [10 - 0; 10 - 1; 10 - 1; 10 - -1]%Q.
 Proof. exact ex_nonvacuous. Qed.
